@@ -287,6 +287,31 @@ print(what); print(a); print(b); print("relative difference", err, "expected 0")
 sys.exit(1 if err > 1e-9 else 0)
 '''
 
+REPLAY_PSTATE = r'''
+import sys, numpy as np
+from EasyFEA.Models.Elastic import _laws
+c = %(case)r
+def build(dim):
+    cls = getattr(_laws, c["cls"])
+    kw = dict(c["params"])
+    if c["cls"] == "TransverselyIsotropic":
+        return cls(dim, axis_l=np.array(c["axes"][0]), axis_t=np.array(c["axes"][1]), planeStress=True, **kw)
+    return cls(dim, axis_1=np.array(c["axes"][0]), axis_2=np.array(c["axes"][1]), planeStress=True, **kw)
+m2, m3 = build(2), build(3)
+x = [0, 1, 5]
+sg = np.array([1.3, -0.7, 0.0, 0.0, 0.0, 0.9])          # a plane stress state (Kelvin-Mandel)
+eps3 = m3.S @ sg                                          # the 3-D strain it induces
+back = m3.C @ eps3
+e1 = np.abs(back[[2, 3, 4]]).max()
+e2 = np.abs(eps3[x] - m2.S @ sg[x]).max() / np.abs(eps3).max()
+e3 = np.abs(m2.C @ eps3[x] - sg[x]).max()
+print("material axes", c["axes"], "(tilted out of the plane)")
+print("out-of-plane stresses of the induced 3-D state:", e1, "(expected 0)")
+print("in-plane strains: 3-D law vs 2-D plane-stress law, relative difference", e2, "(expected 0)")
+print("|C_2d eps_inplane - sigma| =", e3, "(expected 0)")
+sys.exit(1 if max(e1, e2, e3) > 1e-9 else 0)
+'''
+
 REPLAY_LAZY = r'''
 import sys, numpy as np
 from EasyFEA.Models.Elastic import _laws
@@ -670,7 +695,7 @@ def correspondence(ctx, lw, pm):
                     one = dict(c, params=m["pts"][0])
                     viol.append(("plane-stress-state:%s" % cname,
                                  "%s plane stress, axes %s: induced 3-D state has out-of-plane stresses %.2e, in-plane strain mismatch %.2e, C2d*eps - sigma = %.2e"
-                                 % (cname, c["axes"], e1, e2, e3), {"replay_py": REPLAY_LAW % dict(case=one, expected=None), "case": one}))
+                                 % (cname, c["axes"], e1, e2, e3), {"replay_py": REPLAY_PSTATE % dict(case=one), "case": one}))
         # frame consistency: the law with axes (a,b) is the tensor rotation of the law with identity axes
         # (reference: the implementation's own law with identity axes; independent of Get_Pmat)
         if cname != "Isotropic" and cfg == "3d" and not shp and not m.get("ref") and "idref" in m and "raises" not in impl["law"][m["idref"]]:
